@@ -19,6 +19,17 @@ import Driver.Common
 namespace Driver.BlockArea
 open Astria Astria.Merkle Astria.Block
 
+/-! ## State of the code under test
+
+  The model describes the code as it is.  Two recorded open findings have a proposed repair; when
+  a repair lands in /repo, flip the corresponding switch (and mark the finding `fixed`). -/
+
+/-- `reconstruct.rs` compares the blob's rollup id with the conductor's (proposed_fixes/F10.diff). -/
+def codeChecksBlobRollupId : Bool := false
+
+/-- `SequencerBlock::try_from_raw` verifies the per-rollup proofs (proposed_fixes/FB1.diff). -/
+def codeVerifiesRollupProofsInFullBlock : Bool := false
+
 def shaHs : Hashes where
   H := { leaf := fun x => Sha256.hashList (0 :: x)
          node := fun l r => Sha256.hashList (1 :: (l ++ r))
@@ -295,7 +306,7 @@ def strictlySorted : List Bytes → Bool
   | _ => true
 
 /-- structural decoding only (every proof check answered "true") -/
-def structCtx (o : Oracle) : Ctx := ⟨shaHs, fun _ _ _ => .value true, o.fn⟩
+def structCtx (o : Oracle) : Ctx := { Hs := shaHs, V := fun _ _ _ => .value true, eciOk := o.fn }
 
 /-- the crate's verification semantics (C08 ties `Flat` to the code) -/
 def pv (π : Proof) (leaf root : Bytes) : Bool := flatV shaHs π (shaHs.H.leaf leaf) root == .value true
@@ -356,8 +367,8 @@ def stepFull (r0 : Driver.Report) (s : Sess) (n : Nat) (line label rawS impl : S
   match blockP rawS with
   | none => r := r.addDisagree n line "bad-op"
   | some (raw, o) =>
-    r := r.check n line impl (resFull (flatCtx shaHs o.fn) o raw)
-    if resFull (flatCtx shaHs o.fn) o raw ≠ resFull (rfcCtx shaHs o.fn) o raw then r := r.bump "flat_rfc_differ"
+    r := r.check n line impl (resFull (flatCtx shaHs o.fn codeVerifiesRollupProofsInFullBlock) o raw)
+    if resFull (flatCtx shaHs o.fn codeVerifiesRollupProofsInFullBlock) o raw ≠ resFull (rfcCtx shaHs o.fn codeVerifiesRollupProofsInFullBlock) o raw then r := r.bump "flat_rfc_differ"
     if impl = "panic" then r := mon r "no_panic" label n line "SequencerBlock::try_from_raw panicked"
     if some raw = s.implRaw ∧ !impl.startsWith "ok" then
       r := mon r "honest_accepted" label n line "the built block was rejected"
@@ -646,12 +657,13 @@ def run (lines : Array String) : Driver.Report := Id.run do
               r := mon r "filter_exact" label n line "ids / header / proofs of the filtered block differ from the block"
           | _ => r := mon r "dump_parse" label n line "filtered block does not decode structurally"
         | _, _ => r := mon r "dump_parse" label n line "cannot parse the filtered block"
+      | some _, none => r := r.check n line impl "no-block"
       | _, _ => r := r.addDisagree n line "bad-op"
     | ["block", "split"] =>
       let label := "split"
       r := r.bump "op_split"
       match s.model with
-      | none => r := r.addDisagree n line "no-block"
+      | none => r := r.check n line impl "no-block"
       | some b =>
         let (m, bs) := split b
         let out := " # ".intercalate (metaS (okOracle m.eci) m.toRaw :: bs.map fun x => blobS x.toRaw)
@@ -693,7 +705,7 @@ def run (lines : Array String) : Driver.Report := Id.run do
         let o : Oracle := ms.flatMap fun b => match b with | some l => l.flatMap (·.2) | none => []
         let msRaw := ms.map fun b => b.map fun l => l.map (·.1)
         let c := flatCtx shaHs o.fn
-        let res := match conductor c false cfg msRaw bs with
+        let res := match conductor c codeChecksBlobRollupId cfg msRaw bs with
           | .panic => "panic"
           | .value l => recS l
         r := r.check n line impl res
